@@ -350,6 +350,50 @@ func fsFamily(w *mon.W) {
 			})
 		}),
 	}
+	// download: files under root/a whose names contain bytes that mean something in a URL
+	// or are control bytes; the download handler (the last engine) must serve exactly that
+	// file for the percent-encoded name — ctx.File takes a file path, not a request target
+	oddNames := []string{"t\tb.txt", "d\x7fe.txt", "n\nl.txt", "q?r.txt", "h#i.txt", "p%41.txt", "s p.txt", "plus+x.txt", "semi;x.txt"}
+	for i, n := range oddNames {
+		os.WriteFile(filepath.Join(root, "a", n), []byte(fmt.Sprintf("ODD-NAME-%d", i)), 0o644)
+	}
+	w.Cases("download", uint64(w.Pick(200, 2000)), func(c *mon.Case) {
+		r := c.R
+		i := r.Intn(len(oddNames))
+		name := oddNames[i]
+		// every byte outside the unreserved set is percent-encoded by the client
+		var sb strings.Builder
+		for k := 0; k < len(name); k++ {
+			ch := name[k]
+			if ch >= 'a' && ch <= 'z' || ch >= 'A' && ch <= 'Z' || ch >= '0' && ch <= '9' || ch == '.' || ch == '-' || ch == '_' {
+				sb.WriteByte(ch)
+			} else {
+				fmt.Fprintf(&sb, "%%%02X", ch)
+			}
+		}
+		t := "/" + sb.String()
+		c.Detail = func() interface{} {
+			return map[string]interface{}{"family": "download", "target": t, "file_name": name}
+		}
+		sc := sconn.New([][]byte{[]byte("GET " + t + " HTTP/1.1\r\nHost: h\r\n\r\n")}, sconn.EOF)
+		res := rig.Serve(engines[len(engines)-1], sc, 4096, false, 20*time.Second)
+		if res.Hang || res.Panic != nil {
+			c.Violate("download-panic", "the server hangs or panics on %q: %v", t, res.Panic)
+			return
+		}
+		w.Count("download_requests", 1)
+		want := fmt.Sprintf("ODD-NAME-%d", i)
+		msgs, err := wire.ParseResponses(res.Out, nil, true)
+		if err != nil || len(msgs) != 1 || msgs[0].Status != 200 || string(msgs[0].Body) != want {
+			st, body := 0, ""
+			if len(msgs) > 0 {
+				st, body = msgs[0].Status, string(msgs[0].Body)
+			}
+			c.Violate("download-wrong-file", "GET %s -> handler calls ctx.File(<dir>/%q): status %d body %q, want 200 %q (the file exists)", t, name, st, body, want)
+			return
+		}
+		w.Shape(mon.Hash64("download", t))
+	})
 	ft := []string{"/", "..", ".", "%2e%2e", "%2e", "%2f", "%2F", "secret", "c.txt", "a", "root", "%5c", "\\", "..%2f", "%2e%2e%2f", "....//", "%252e%252e", "a/f.txt", "%00", ";"}
 	w.Cases("fs", uint64(w.Pick(600, 6000)), func(c *mon.Case) {
 		r := c.R
